@@ -33,6 +33,9 @@ func (w *slotWorld) lengthGuardRule(r *Report, rule string) {
 			continue
 		}
 		seenFn[fn] = true
+		// only the first test at a cursor is compared with the record's minimum: a later, stricter one (40 octets
+		// once the selector is known to be of the IPv6 kind) is conditional on what was read in between
+		firstAt := map[string]*ssa.BasicBlock{}
 		fname := c.FuncName(fn)
 		f := c.NewFA(fn)
 		x := newBVCtx(c, f)
@@ -49,7 +52,7 @@ func (w *slotWorld) lengthGuardRule(r *Report, rule string) {
 			sort.Strings(out)
 			return out
 		}
-		for _, b := range fn.Blocks {
+		for _, b := range fn.DomPreorder() {
 			if f.Dead[b] {
 				continue
 			}
@@ -103,6 +106,12 @@ func (w *slotWorld) lengthGuardRule(r *Report, rule string) {
 				}
 				if !okShape || nLen != 1 || rootKey == "" {
 					continue
+				}
+				if first, seen := firstAt[rootKey]; seen && first != b && first.Dominates(b) {
+					continue
+				}
+				if _, seen := firstAt[rootKey]; !seen {
+					firstAt[rootKey] = b
 				}
 				m := -L.C // the smallest remaining length that passes
 				recs := recordOf(rootKey)
